@@ -264,7 +264,14 @@ def r_lrange(ip, args, kwargs, node):
     b = z3.If(stop < 0, n + stop, z3.If(stop >= n, n - 1, stop))
     ln = z3.If(z3.Or(a > b, a >= n), 0, b - a + 1)
     ref = ip.st.new_ref()
-    ip.st.heap[(ref, "seq")] = z3.SubSeq(cur, a, ln)
+    # the reply is SubSeq(cur, a, ln), stated element-wise (the solvers do not connect nth(SubSeq(s, a, n), j) with
+    # nth(s, a + j) under quantifiers by themselves): a fresh sequence of that length with those elements
+    res = ip.st.fresh("lrange", SeqS)
+    j = z3.Int(ip.st.fresh_name("j"))
+    ip.st.assume(z3.Length(res) == ln)
+    ip.st.assume(z3.ForAll([j], z3.Implies(z3.And(j >= 0, j < ln), res[j] == cur[a + j]), patterns=[res[j]]))
+    ip.st.assume(z3.ForAll([j], z3.Implies(z3.And(j >= a, j < a + ln), cur[j] == res[j - a]), patterns=[cur[j]]))   # the same fact, keyed by the list position
+    ip.st.heap[(ref, "seq")] = res
     _note(ip, "LRANGE")
     _yield(ip, node, "lrange", "after")
     return _awaitable(ip, VSeq(ref, ("bytes",)))
@@ -356,7 +363,13 @@ def s_redis_removed(ip, args, kwargs, node):
     return VInt(res[0])
 
 
-SPEC = {"redis_removed": _spec(s_redis_removed), "seq1": _spec(s_seq1), "r_list": _spec(r_list), "r_zhas": _spec(r_zhas), "r_zscore": _spec(r_zscore), "r_hhas": _spec(r_hhas),
+def s_seq_str(ip, args, kwargs, node):
+    """spec: element j of a sequence of names (bytes) as a str"""
+    sq, j = args
+    return VStr(ip.st.heap[(sq.ref, "seq")][j.term])
+
+
+SPEC = {"seq_str": _spec(s_seq_str), "redis_removed": _spec(s_redis_removed), "seq1": _spec(s_seq1), "r_list": _spec(r_list), "r_zhas": _spec(r_zhas), "r_zscore": _spec(r_zscore), "r_hhas": _spec(r_hhas),
         "r_hval": _spec(r_hval)}
 
 
